@@ -332,6 +332,23 @@ pub fn lifecycle_violations(events: &[Event]) -> Vec<(String, String)> {
             out.push(("session_seq".into(), format!("session {sess} seqs {:?}", frames.iter().map(|f| f.0).collect::<Vec<_>>())));
         }
     }
+    // a side-effects frame describes a tool call that has FINISHED: by the log, the tool's terminal
+    // frame (tool_ended / tool_failed, same tool id, the run's session) precedes it
+    // (docs/03_contracts/event_frames.md: "must be emitted after the tool completes")
+    for (pos, e) in events.iter().enumerate() {
+        if let EventKind::ContinuityToolSideEffects { run_session_id, tool_id, .. } = &e.kind {
+            let terminal = events.iter().position(|t| {
+                t.stream_kind() == StreamKind::Session
+                    && t.stream_id() == run_session_id
+                    && matches!(&t.kind, EventKind::ToolEnded { tool_id: id, .. } | EventKind::ToolFailed { tool_id: id, .. } if id == tool_id)
+            });
+            match terminal {
+                Some(t) if t < pos => {}
+                Some(_) => out.push(("side_effects_before_tool_finished".into(), format!("run {run_session_id}: the side-effects frame of tool {tool_id} precedes that tool's terminal frame in the log"))),
+                None => out.push(("side_effects_without_tool_terminal".into(), format!("run {run_session_id}: side-effects frame of tool {tool_id}, which has no terminal frame in the run's session"))),
+            }
+        }
+    }
     for (job, n) in job_ended {
         if n > 1 {
             out.push(("job_ended_twice".into(), format!("job {job} has {n} job_ended frames")));
